@@ -131,7 +131,7 @@ def run(rep):
         G, GROUP = ('f', ge, CARRIER['group_field']), ge
         BINDINGS = ('f', ge, CARRIER['bindings_field'])
     # field roles of the collected-binding record by provenance (which field was filled from `.binding`, which from module.types[..]), not by name
-    from roles import binding_roles
+    from roles import binding_roles, rt as RT
     ROLES, _rec = binding_roles(ogp)
     if ROLES is None:
         rep.bad('C04.anchor', 'binding-record', where, 'cannot find where the collected-binding record is built from a variable\'s name / @binding index / type / address space', undecided=True)
@@ -169,7 +169,7 @@ def run(rep):
         be = ('elem', rs[2], rs[1])
         ft = E.find_templates(rs[3], lambda t: E.tmpl_text(t).startswith('pub #'))[0]
         hh = list(E.holes(ft).values())
-        rep.check(hh[0] == ('call', 'Ident::new', [('unwrap', ('f', be, NAME_F))]), 'C04.R1.field-name', 'field-name', where,
+        rep.check(hh[0] == ('call', 'Ident::new', [('unwrap', RT(be, NAME_F))]), 'C04.R1.field-name', 'field-name', where,
                   f'field name is {E.show(hh[0], maxdepth=5)}; expected the variable\'s own name', ok_detail='Ident::new(binding.name)')
         scr = collect_scrutinees(hh[1]).get('TypeInner', [])
         if len(scr) == 1 and scr[0][0] == 'f' and scr[0][2] == 'inner' and scr[0][1] == ('f', be, TYPE_F):
@@ -225,7 +225,7 @@ def run(rep):
                         rep.check(kinds1.get(v) == k, 'C04.R2.resource-kind', f'resource-kind-agrees:{v}', where, f'field kind {kinds1.get(v)} vs entry kind {k} for {v}', ok_detail='field and entry agree')
                     if m_:
                         hv = all_holes.get(m_.group(2))
-                        ok = hv == ('call', 'Ident::new', [('unwrap', ('f', be, NAME_F))])
+                        ok = hv == ('call', 'Ident::new', [('unwrap', RT(be, NAME_F))])
                         if m_.group(1) not in seen_kinds:
                             seen_kinds.add(m_.group(1))
                             rep.check(ok, 'C04.R2.entry-resource', f'entry-resource:{m_.group(1)}', where,
